@@ -16,9 +16,6 @@ import (
 	"errors"
 	"fmt"
 	"os"
-	"os/signal"
-	"sync"
-	"syscall"
 	"testing"
 
 	"pgregory.net/rapid"
@@ -32,26 +29,10 @@ import (
 type IOCase struct {
 	Program drive.Program `json:"program"`
 	Limit   int64         `json:"limit"` // RLIMIT_FSIZE (bytes) while the engine is open
-}
-
-var xfszOnce sync.Once
-
-func setFsizeLimit(n uint64) error {
-	xfszOnce.Do(func() { signal.Ignore(syscall.SIGXFSZ) })
-	var cur syscall.Rlimit
-	if err := syscall.Getrlimit(syscall.RLIMIT_FSIZE, &cur); err != nil {
-		return err
-	}
-	cur.Cur = n
-	return syscall.Setrlimit(syscall.RLIMIT_FSIZE, &cur)
-}
-
-func liftFsizeLimit() {
-	var cur syscall.Rlimit
-	if err := syscall.Getrlimit(syscall.RLIMIT_FSIZE, &cur); err == nil {
-		cur.Cur = cur.Max
-		_ = syscall.Setrlimit(syscall.RLIMIT_FSIZE, &cur)
-	}
+	// LiftAt > 0: the limit is lifted again right before step LiftAt (the disk has
+	// room again); what a log that has failed once does with later writes is then
+	// judged like everything else (acknowledged = durable and visible)
+	LiftAt int `json:"lift_at,omitempty"`
 }
 
 // recordCount is the number of physical log records a write step produces at
@@ -148,10 +129,10 @@ func runIO(c *IOCase) (f *drive.Failure, classes []string, nt bool) {
 	if err := drive.ApplyCfg(dir, p.Cfg); err != nil {
 		panic(err)
 	}
-	if err := setFsizeLimit(uint64(c.Limit)); err != nil {
+	if err := drive.SetFsizeLimit(uint64(c.Limit)); err != nil {
 		panic(err)
 	}
-	defer liftFsizeLimit()
+	defer drive.LiftFsizeLimit()
 	r, mm := drive.NewRunner(dir, p)
 	if mm != nil {
 		return &drive.Failure{Sig: "io:open-error", Msg: mm.Error()}, nil, false
@@ -183,8 +164,13 @@ func runIO(c *IOCase) (f *drive.Failure, classes []string, nt bool) {
 		}
 		return nil
 	}
+	lifted := false
 	for i := range p.Steps {
 		s := p.Steps[i]
+		if c.LiftAt > 0 && i == c.LiftAt && !lifted {
+			drive.LiftFsizeLimit()
+			lifted = true
+		}
 		mm, err := r.Do(i)
 		if mm != nil {
 			return &drive.Failure{Sig: "io:" + mm.Signature(), Msg: mm.Error()}, nil, nt
@@ -251,6 +237,7 @@ func runIO(c *IOCase) (f *drive.Failure, classes []string, nt bool) {
 	add(okAfterFail > 0, "io:acknowledged_write_after_failure")
 	add(reopenAfterFail > 0, "io:reopen_after_failure")
 	add(failedTx+failedPlain == 0, "io:limit_never_hit")
+	add(lifted && failedTx+failedPlain > 0 && okAfterFail > 0, "io:limit_lifted_then_acknowledged_writes")
 	return nil, classes, nt
 }
 
@@ -330,7 +317,11 @@ func genIO(t *rapid.T) IOCase {
 	if limit < 2048 {
 		limit = 2048
 	}
-	return IOCase{Program: p, Limit: limit}
+	c := IOCase{Program: p, Limit: limit}
+	if rapid.IntRange(0, 2).Draw(t, "lift") == 0 {
+		c.LiftAt = rapid.IntRange(1, len(p.Steps)).Draw(t, "lift_at")
+	}
+	return c
 }
 
 func TestPropIOFault(t *testing.T) {
